@@ -242,7 +242,8 @@ def explore(name, level, seed):
     nlong = 0
     for pat in itertools.product(range(len(atoms)), repeat=3):
         acc, want, desc = api.m.zero(), (0, 0, 0), "0"
-        for L in range(14):
+        LONG = 40 if pat[0] != pat[1] or pat[1] != pat[2] else 300     # one-atom patterns run to 300 terms
+        for L in range(LONG):
             d, o, w, k = atoms[pat[L % 3]]
             term = o if k == 1 else o * k
             s_acc = api.snap(acc)
@@ -254,7 +255,7 @@ def explore(name, level, seed):
             check("chain " + desc2, acc2, want2, [(desc, acc, s_acc)], False)
             acc, want, desc = acc2, want2, desc2
             nlong += 1
-            if L in (3, 7, 8, 9, 13):
+            if L in (3, 7, 8, 9, 13, 15, 16, 17, 31, 32, 33, 39, 63, 64, 65, 127, 128, 129, 255, 256, 257, 299):
                 s_acc = api.snap(acc)
                 check("v2+(chain %s)" % desc, api.v2 + acc, tuple(a + b for a, b in zip((0, 0, 1), want)), [(desc, acc, s_acc)], False)
                 check("(chain %s)+(same chain)" % desc, acc + acc, tuple(2 * a for a in want), [(desc, acc, s_acc)], False)
@@ -323,7 +324,7 @@ def run(ctx):
     ctx.cov["distinct_outcomes"] = agg["distinct_forms"]
     ctx.cov["traces_validated_against_impl"] = agg["trees"]
     ctx.cov["exhaustive"] = True
-    ctx.cov["rule"] = ("expression trees over leaves zero/one/v1/v2/shared v1 with + - neg and 9 scalars (and left-deep sums of up to 14 terms with repeated wires, for every cyclic pattern of three signed / scaled leaves): ALL trees of depth <= 2 "
+    ctx.cov["rule"] = ("expression trees over leaves zero/one/v1/v2/shared v1 with + - neg and 9 scalars (and left-deep sums of up to 40 (300 for single-atom patterns) terms with repeated wires, for every cyclic pattern of three signed / scaled leaves): ALL trees of depth <= 2 "
                        "(evaluated on 16 assignments), every unary operator and leaf-binary operator on depth-2 trees (all of "
                        "them thorough, every 4th quick) compared by linear form mod p; operands re-inspected after every "
                        "operation; per backend: snarkjs, zkinterface x3 fields, qaptools Sig, recorder as control; "
